@@ -163,6 +163,15 @@ class PubSubModel:
                 acks.setdefault(wfr.conn, []).append(wfr)
         self.acks_by_conn = acks
         read_seqs = [fr.seq for fr in net.reads]
+        # the manager interprets a control frame from its receive buffer; a data section shorter than the
+        # definition leaves the rest of the buffer as the previous frames wrote it.  Replayed here so that a
+        # SUBSCRIBE-family frame with fewer than four payload bytes is understood as the manager understands it.
+        rx = bytearray(4)
+        self.stale4 = {}
+        for fr in sorted(net.reads, key=lambda f: f.seq):
+            p = bytes(fr.payload[:4]) if fr.payload else b""
+            rx[:len(p)] = p
+            self.stale4[fr.seq] = bytes(rx)
         wfail_by_seq = list(net.wfails)
 
         import bisect
@@ -209,9 +218,13 @@ class PubSubModel:
                 self.controls.append(c)
                 if not m.connected:
                     m.early = True
-                if len(fr.payload) >= 4:
+                if True:
                     import struct
-                    (st,) = struct.unpack_from("<i", fr.payload)
+                    if len(fr.payload) >= 4:
+                        (st,) = struct.unpack_from("<i", fr.payload)
+                    else:
+                        (st,) = struct.unpack("<i", self.stale4[fr.seq])
+                        self.short_subs = getattr(self, "short_subs", 0) + 1
                     add = t in (C.MT_SUBSCRIBE, C.MT_RESUME_SUBSCRIPTION)
                     if st == ALL:
                         m.subs = {ALL} if add else set()
